@@ -351,6 +351,8 @@ reg("sum_int32", gen_reduction(False, dtype="int32"), _red_build("sum"), _red_re
 reg("sum_uint8", gen_reduction(False, dtype="uint8"), _red_build("sum"),
     lambda ns, p: np.sum(ns[0], axis=_t(p["axis"]), keepdims=p["keepdims"], dtype=np.uint64), group="reduction")
 reg("sum_float32", gen_reduction(False, dtype="float32"), _red_build("sum"), _red_ref("sum"), close=True, group="reduction")
+reg("mean_float32", gen_reduction(False, dtype="float32"), _red_build("mean"), _red_ref("mean"), close=True, group="reduction")
+reg("var_float32", gen_reduction(False, dtype="float32"), _red_build("var"), _red_ref("var"), close=True, group="reduction")
 reg("all", gen_reduction(False, dtype="bool"), _red_build("all"), _red_ref("all"), group="reduction")
 reg("any", gen_reduction(False, dtype="bool"), _red_build("any"), _red_ref("any"), group="reduction")
 reg("count_nonzero", gen_reduction(False, dtype="bool"), _red_build("count_nonzero"), _red_ref("count_nonzero"), group="reduction")
@@ -1003,7 +1005,7 @@ def gen_rechunk(tier):
             yield [inp(shape, c1)], dict(chunks=list(c2))
 
 
-reg("rechunk", gen_rechunk, lambda xs, p: xs[0].rechunk(_t(p["chunks"]), allow_irregular=p.get("allow_irregular", True)), lambda ns, p: ns[0], group="top")
+reg("rechunk", gen_rechunk, lambda xs, p: xs[0].rechunk(_t(p["chunks"]), allow_irregular=p.get("allow_irregular", True), **({"min_mem": p["min_mem"]} if "min_mem" in p else {})), lambda ns, p: ns[0], group="top")
 
 
 def _mb_func(a, block_id=None):
